@@ -153,7 +153,8 @@ fn programs_over(alphabet: &[Step], max_len: usize) -> Vec<Vec<Step>> {
 
 pub fn cases(tier: &str) -> Vec<Case> {
     let mut out = Vec::new();
-    let (l1, l2, l3) = if tier == "thorough" { (3, 3, 2) } else { (3, 2, 1) };
+    let thorough = tier == "thorough";
+    let (l1, l2, l3) = if thorough { (4, 2, 1) } else { (3, 2, 1) };
     // one coroutine
     for p in programs(l1) {
         let n = resumes(&p);
@@ -215,6 +216,34 @@ pub fn cases(tier: &str) -> Vec<Case> {
         }
     }
 
+    if thorough {
+        // longer pair programs over a smaller alphabet (the pairs above cover every step kind at length 2)
+        let small = [Step::Suspend, Step::Until, Step::Cancel, Step::SysYield, Step::SysYieldExec];
+        let ps3: Vec<Vec<Step>> = programs_over(&small, 3).into_iter().filter(|p| p.len() == 3).collect();
+        let ps_all = programs_over(&small, 3);
+        for a in &ps3 {
+            for b in &ps_all {
+                for order in interleavings(&[resumes(a), resumes(b)]) {
+                    out.push(Case { programs: vec![a.clone(), b.clone()], order });
+                }
+            }
+        }
+        // and three coroutines of two steps over {Suspend, SysYield, Cancel}
+        let tiny = [Step::Suspend, Step::SysYield, Step::Cancel];
+        let pt = programs_over(&tiny, 2);
+        for a in &pt {
+            for b in &pt {
+                for c in &pt {
+                    if a.len() + b.len() + c.len() < 4 {
+                        continue;
+                    }
+                    for order in interleavings(&[resumes(a), resumes(b), resumes(c)]) {
+                        out.push(Case { programs: vec![a.clone(), b.clone(), c.clone()], order });
+                    }
+                }
+            }
+        }
+    }
     // three coroutines
     let ps = programs(l3);
     for a in &ps {
@@ -423,6 +452,10 @@ pub fn run(tier: &str, rep: &mut Report) {
         "cases": cs.len(),
     });
     rep.require(&["cases_with_syscall_state_yield_next_to_other_coroutines", "cases_with_nested_resume"]);
+    if std::env::var_os("SEQX_COUNT").is_some() {
+        eprintln!("c09.seq {tier}: {} cases", cs.len());
+        return;
+    }
     for c in cs.iter().step_by((cs.len() / 4).max(1)).take(4) {
         rep.sample(c.to_json());
     }
